@@ -214,7 +214,17 @@ Definition pre (g : state * list brow) (o : op) : Prop :=
       | None => forall x, In x (base s) -> 0 < tr (b_ts x)
       | Some _ => exists new, base s = synced ++ new /\ forall x, In x new -> watermark (rollup s) < tr (b_ts x)   (* data arrives in time order *)
       end
-  | CliIncr | CliMerge => rollup s = None       (* only the very first CLI run in these modes is right: see cli_*_refuted *)
+  | CliMerge =>                                  (* the command line passes no lookback *)
+      let w := watermark (rollup s) - 0 in
+      match rollup s with
+      | None => forall x, In x (base s) -> w <= tr (b_ts x)
+      | Some _ => forall k, fst k < w -> bsum (base s) k = bsum synced k /\ bcnt (base s) k = bcnt synced k
+      end
+  | CliIncr =>
+      match rollup s with
+      | None => forall x, In x (base s) -> 0 < tr (b_ts x)
+      | Some _ => exists new, base s = synced ++ new /\ forall x, In x new -> watermark (rollup s) < tr (b_ts x)
+      end
   end.
 Definition GInv (g : state * list brow) : Prop :=
   match rollup (fst g) with None => True | Some r => approx r (snd g) end.
@@ -235,8 +245,12 @@ Proof.
     + eapply merge_correct; eauto.
     + rewrite filter_all; [apply full_correct|]. intros x Hx. apply Z.leb_le. auto.
   - apply full_correct.
-  - subst ro. apply full_correct.
-  - subst ro. apply full_correct.
+  - destruct ro as [r|].
+    + destruct HP as (new & -> & Hnew). apply incremental_in_order; auto. intros x Hx. eapply approx_covers; eauto.
+    + rewrite filter_all; [apply full_correct|]. intros x Hx. apply Z.ltb_lt. cbn [watermark]. auto.
+  - destruct ro as [r|].
+    + eapply merge_correct; eauto.
+    + rewrite filter_all; [apply full_correct|]. intros x Hx. apply Z.leb_le. auto.
 Qed.
 
 Fixpoint all_pre (h : list op) (g : state * list brow) : Prop :=
@@ -278,15 +292,20 @@ Proof.
 Qed.
 End RefreshProofs.
 
-(* ---------- the CLI's incremental / merge modes have no watermark predicate ---------- *)
+(* ---------- the CLI's incremental / merge modes are the API's (bucket-level watermark predicate, no lookback) ---------- *)
 Definition ex_base := [ {| b_ts := 5; b_dim := 0; b_v := 10 |}; {| b_ts := 9; b_dim := 0; b_v := 1 |} ].
-Example cli_incremental_refuted :
-  let s2 := run (fun z => z) [CliIncr; CliIncr] {| base := ex_base; rollup := None |} in
-  match rollup s2 with Some r => rows_at r (5, 0) = 2 | None => False end.
+Lemma cli_incr_is_incr : forall tr s, step tr s CliIncr = step tr s Incr.
 Proof. reflexivity. Qed.
-Example cli_merge_refuted :
+Lemma cli_merge_is_merge0 : forall tr s, step tr s CliMerge = step tr s (Merge 0).
+Proof. reflexivity. Qed.
+(* a second run without new data: one row per bucket, as after the first (before the repair of the command line: two rows for bucket 5) *)
+Example cli_incremental_rerun :
+  let s2 := run (fun z => z) [CliIncr; CliIncr] {| base := ex_base; rollup := None |} in
+  match rollup s2 with Some r => rows_at r (5, 0) = 1 /\ rows_at r (9, 0) = 1 | None => False end.
+Proof. split; reflexivity. Qed.
+Example cli_merge_rerun :
   let s2 := run (fun z => z) [CliMerge; CliMerge] {| base := ex_base; rollup := None |} in
-  match rollup s2 with Some r => rows_at r (5, 0) = 2 /\ rows_at r (9, 0) = 1 | None => False end.
+  match rollup s2 with Some r => rows_at r (5, 0) = 1 /\ rows_at r (9, 0) = 1 | None => False end.
 Proof. split; reflexivity. Qed.
 Local Arguments Z.eqb : simpl never.
 Local Arguments Z.ltb : simpl never.
